@@ -21,6 +21,17 @@ Qed.
 Lemma ch_star_neq_qmark : ch_star <> ch_qmark.
 Proof. unfold ch_star, ch_qmark. discriminate. Qed.
 
+Lemma glob_rel_cons_inv : forall c p n, glob_rel (c :: p) n ->
+  (c = ch_star /\ exists w n', n = w ++ n' /\ glob_rel p n') \/
+  (c = ch_qmark /\ exists d n', n = d :: n' /\ glob_rel p n') \/
+  (c <> ch_star /\ c <> ch_qmark /\ exists n', n = c :: n' /\ glob_rel p n').
+Proof.
+  intros c p n H. inversion H; subst.
+  - left. split; [reflexivity|]. eexists _, _. split; [reflexivity|assumption].
+  - right. left. split; [reflexivity|]. eexists _, _. split; [reflexivity|assumption].
+  - right. right. split; [assumption|]. split; [assumption|]. eexists. split; [reflexivity|assumption].
+Qed.
+
 Theorem glob_match_iff : forall p n, glob_match p n = true <-> glob_rel p n.
 Proof.
   induction p as [|c p IH]; intros n.
@@ -32,14 +43,17 @@ Proof.
   - cbn [glob_match]. destruct (c =? ch_star) eqn:Ec.
     + apply Z.eqb_eq in Ec. subst c. rewrite star_any_true. split.
       * intros [w [n' [E H]]]. subst n. apply glob_star. apply IH. exact H.
-      * intros H. inversion H as [ | p0 w n0 Hr E1 E2 | p0 d n0 Hr E1 E2 | c0 p0 n0 Hs Hq Hr E1 E2 ].
-        -- exists w, n0. split; [reflexivity|]. apply IH. exact Hr.
-        -- exfalso. apply ch_star_neq_qmark. symmetry. assumption.
-        -- exfalso. apply Hs. reflexivity.
+      * intros H. apply glob_rel_cons_inv in H.
+        destruct H as [[_ [w [n' [E H]]]] | [[E _] | [E _]]].
+        -- exists w, n'. split; [exact E|]. apply IH. exact H.
+        -- exfalso. apply ch_star_neq_qmark. exact E.
+        -- exfalso. apply E. reflexivity.
     + apply Z.eqb_neq in Ec. destruct n as [|d n].
-      * split; [discriminate|]. intros H.
-        inversion H as [ | p0 w n0 Hr E1 E2 | p0 d n0 Hr E1 E2 | c0 p0 n0 Hs Hq Hr E1 E2 ].
-        exfalso. apply Ec. symmetry. assumption.
+      * split; [discriminate|]. intros H. apply glob_rel_cons_inv in H.
+        destruct H as [[E _] | [[_ [d [n' [E _]]]] | [_ [_ [n' [E _]]]]]].
+        -- exfalso. apply Ec. exact E.
+        -- discriminate.
+        -- discriminate.
       * split.
         -- intros H. apply andb_true_iff in H. destruct H as [H1 H2]. apply IH in H2.
            apply orb_true_iff in H1. destruct H1 as [H1|H1]; apply Z.eqb_eq in H1; subst c.
@@ -47,10 +61,11 @@ Proof.
            ++ destruct (Z.eq_dec d ch_qmark) as [Eq|Nq].
               ** subst d. apply glob_qmark. exact H2.
               ** apply glob_lit; assumption.
-        -- intros H. inversion H as [ | p0 w n0 Hr E1 E2 | p0 d0 n0 Hr E1 E2 | c0 p0 n0 Hs Hq Hr E1 E2 ].
-           ++ exfalso. apply Ec. symmetry. assumption.
-           ++ subst. rewrite Z.eqb_refl. cbn [orb andb]. apply IH. exact Hr.
-           ++ subst. rewrite Z.eqb_refl. rewrite orb_true_r. cbn [andb]. apply IH. exact Hr.
+        -- intros H. apply glob_rel_cons_inv in H.
+           destruct H as [[E _] | [[Eq [d0 [n' [E H]]]] | [_ [_ [n' [E H]]]]]].
+           ++ exfalso. apply Ec. exact E.
+           ++ injection E as E1 E2. subst. rewrite Z.eqb_refl. cbn [orb andb]. apply IH. exact H.
+           ++ injection E as E1 E2. subst. rewrite Z.eqb_refl. rewrite orb_true_r. cbn [andb]. apply IH. exact H.
 Qed.
 
 (* corollaries used in the statements: what `*` and a literal pattern mean *)
